@@ -596,6 +596,37 @@ CHECKS = {
 # Text appended to the entries above: what the added parts and generator dimensions cover. (Kept separate so that
 # the original statements stay readable; MANIFEST.json and the evidence files carry the concatenation.)
 EXT = {
+    "C01": dict(
+        technique="; scripted targets whose streams break and come back, observers attached at scripted instants, slow consumers (blocked handlers on static-window connections)",
+        level_text=(" Parts slow and break watch the scripts WHILE they play: client-library observers subscribe at scripted script positions, may stop reading (handler blocked until "
+                    "the target has sent a burst: 10-40 updates of 16-32 KB and 2-4 rounds of atomic containers / multi-update notifications / leaves sent again), and the target's stream "
+                    "breaks (status, transport closed, Collector.Reconnect) with the target reporting its current state - possibly without some earlier leaves - when the collector subscribes "
+                    "again; observers attach before / at / after the break, also exactly when an attaching observer got its first update of a walk over up to 12000 leaves. Scripts of every "
+                    "part also carry atomic notifications (2-6 updates, sent again with later members changed) and multi-update notifications. Same oracle for every observer."),
+        level_note="; timing decides which windows are hit (recorded as labels), never the verdict; every wait inside a case is bounded (3 s) and a bound that passes is only a label",
+        rule="; slow part: additionally a blocked observer demonstrably received a coalesced delivery; break part: additionally the collector subscribed again and an observer attached mid-script",
+    ),
+    "C13": dict(
+        technique="; API calls overlapping each other and the manager's own timers (calls on their own goroutines, structural settling instead of synctest.Wait while a call waits for the manager's mutex)",
+        level_text=(" Part overlap: 1-3 targets with per-target receive timeouts and a 'hold' (Recv, dial, or a Reset/Update/ConnectError callback that does not return until released), 1-8 steps "
+                    "remove/add/reconnect/release each on its own goroutine, optionally unsettled (no wait for quiescence) and aimed (+-offset) at the next receive-timeout expiry, message, dial "
+                    "completion or retry of a target. Oracle per name, sound under any schedule: Add/Remove results linearizable over the bit 'managed', callbacks only while some linearization "
+                    "has the name managed or a Remove of it running, no new attempt while the previous stream is unfinished, Remove returns only after the session wound down, plus the ordering clauses."),
+        rule=" overlap: non-trivial = a call started while another was in flight, or a call landing on its own target's receive-timeout or retry instant",
+    ),
+    "C10": dict(
+        technique="; schedules forced inside operations through their user callbacks (condition/visitor parks); short aligned-start bursts on empty nodes; a differential (sequential re-execution) history oracle",
+        level_text=(" Part cbgate: the k-th callback of DeleteConditional/WalkDeleted/Query/Walk/WalkSorted parks on a channel while other threads run one operation per step (handle updates aimed "
+                    "at leaves the parked delete has or has not inspected yet), judged by the linearizability checker. Parts burst/burst-race: 2-4 racers x 1-3 operations around a focus node that "
+                    "is empty (fresh root, root emptied by a delete, nil leaf), incl. the empty path and nil values, 16-64 runs per scenario from an aligned start; every run judged by porcupine "
+                    "and by a differential oracle (some sequential order of the recorded operations on a fresh tree reproduces every result and the final content)."),
+    ),
+    "C12": dict(
+        technique="; a size model for every generated dimension; one server and one cache living across long request sequences",
+        level_text=(" Generators sample sizes around capacity steps (keys 0-12, elements 0-40, entries 0-300, subscriptions 0-100, leaf-lists 0-300, strings 0-5000) and many distinct undeclared enum "
+                    "numbers. Part life: one cache (2-40 targets) and one subscribe.Server with a drawn option set live across 1-400 steps (hostile and valid notifications, Subscribe RPCs that stay "
+                    "open across later steps, lifecycle calls, probes); per-message oracles as before, a valid ONCE probe must still be answered, reads do not change the cache. Fuzz target FuzzC12Life."),
+    ),
     "C02": dict(
         technique="; plus aligned-start parallel feeding of one target from several goroutines (real scheduler), schedule-independent oracle",
         level_text=(" Part parallel: 2-4 goroutines feed ONE target at once, each writing its own 1-2 leaves with globally distinct timestamps (150-500 aligned-start rounds "
